@@ -43,6 +43,7 @@ type Engine struct {
 	ghosts    map[string]types.Type
 	chanInv   map[string]ast.Expr
 	lemmas    []*Lemma
+	preds     map[string]*Pred
 
 	fieldIDs   map[string]int
 	fieldByID  map[int]escField
@@ -56,6 +57,7 @@ type Engine struct {
 	summaries   map[*ssa.Function]*NameSet
 	inSummary   map[*ssa.Function]bool
 	probes      map[*ssa.Function]map[int]*NameSet
+	anchorOrds  map[*ssa.Function]map[anchorKey]int
 	mutGlobals  map[*ssa.Global]bool
 	globalAlias map[string]string
 	globalInit  map[*ssa.Global]ssa.Value
@@ -81,7 +83,7 @@ func loadEngine(repo string) (*Engine, error) {
 		funcs: map[string]*ssa.Function{}, contracts: map[string]*Contract{}, ghosts: map[string]types.Type{}, chanInv: map[string]ast.Expr{},
 		fieldIDs: map[string]int{}, fieldByID: map[int]escField{}, escFields: map[string][]escField{}, tagIDs: map[string]int{},
 		knownSet: map[string]bool{}, nextForTag: foreignTagBase + 16,
-		inlineMemo: map[*ssa.Function]bool{}, summaries: map[*ssa.Function]*NameSet{}, inSummary: map[*ssa.Function]bool{}, probes: map[*ssa.Function]map[int]*NameSet{},
+		inlineMemo: map[*ssa.Function]bool{}, summaries: map[*ssa.Function]*NameSet{}, inSummary: map[*ssa.Function]bool{}, probes: map[*ssa.Function]map[int]*NameSet{}, anchorOrds: map[*ssa.Function]map[anchorKey]int{},
 		mutGlobals: map[*ssa.Global]bool{}, globalAlias: map[string]string{}, globalInit: map[*ssa.Global]ssa.Value{},
 	}
 	e.sizes = types.SizesFor("gc", "amd64")
@@ -452,6 +454,20 @@ func (e *Engine) summary(fn *ssa.Function) *NameSet {
 	if s, ok := e.summaries[fn]; ok {
 		return s
 	}
+	ns := e.summary0(fn)
+	if c := e.contracts[e.fnName(fn)]; c != nil && len(c.GhostUpd) > 0 && !ns.All {
+		cp := newNameSet()
+		cp.AddAll(ns)
+		for _, u := range c.GhostUpd {
+			e2ghostNames(u.Ghost, cp)
+		}
+		ns = cp
+	}
+	e.summaries[fn] = ns
+	return ns
+}
+
+func (e *Engine) summary0(fn *ssa.Function) *NameSet {
 	if c := e.contracts[e.fnName(fn)]; c != nil && c.HasModifies {
 		// resolved lazily at call sites (needs an Env); here: conservative names
 		ns := newNameSet()
@@ -483,6 +499,28 @@ func (e *Engine) summary(fn *ssa.Function) *NameSet {
 						}
 					}
 				}
+			case strings.HasPrefix(item, "mapof "):
+				func() {
+					defer func() {
+						if r := recover(); r != nil {
+							ns.All = true
+							ns.Why = "mapof item"
+						}
+					}()
+					// resolve the type of "p.field" syntactically
+					path := strings.Split(strings.TrimPrefix(item, "mapof "), ".")
+					var t types.Type
+					for _, p := range fn.Params {
+						if p.Name() == path[0] {
+							t = p.Type()
+						}
+					}
+					for _, fname := range path[1:] {
+						obj, _, _ := types.LookupFieldOrMethod(t, true, fn.Pkg.Pkg, fname)
+						t = obj.Type()
+					}
+					e.mapStateNames(t.Underlying().(*types.Map), ns)
+				}()
 			case strings.HasPrefix(item, "elems "):
 				ns.All = true
 			default:
@@ -500,7 +538,7 @@ func (e *Engine) summary(fn *ssa.Function) *NameSet {
 		return ns
 	}
 	if e.inSummary[fn] {
-		return &NameSet{All: true}
+		return &NameSet{All: true, Why: "recursion through " + e.fnName(fn)}
 	}
 	if fn.Blocks == nil || !e.inRepo(fn) {
 		ns := newNameSet()
@@ -512,6 +550,7 @@ func (e *Engine) summary(fn *ssa.Function) *NameSet {
 	ns := newNameSet()
 	if pw == nil {
 		ns.All = true
+		ns.Why = "probe of " + e.fnName(fn) + " failed or recursive"
 	}
 	for _, w := range pw {
 		ns.AddAll(w)
@@ -559,6 +598,24 @@ func (e *Engine) probeWrites(fn *ssa.Function) map[int]*NameSet {
 		return nil
 	}
 	e.probes[fn] = probe.blockWrites
+	// anchor ordinals in source order
+	ords := map[anchorKey]int{}
+	byName := map[string][]anchorKey{}
+	for _, k := range probe.anchorLog {
+		byName[k.name] = append(byName[k.name], k)
+	}
+	for _, ks := range byName {
+		sort.SliceStable(ks, func(i, j int) bool { return ks[i].pos < ks[j].pos })
+		n := 0
+		for i, k := range ks {
+			if i > 0 && ks[i-1] == k {
+				continue
+			}
+			n++
+			ords[k] = n
+		}
+	}
+	e.anchorOrds[fn] = ords
 	return probe.blockWrites
 }
 
@@ -611,6 +668,12 @@ func (e *Engine) loadContracts() error {
 			e.ghosts[g.Name] = t
 		}
 		e.lemmas = append(e.lemmas, cf.Lemmas...)
+		for _, p := range cf.Preds {
+			if e.preds == nil {
+				e.preds = map[string]*Pred{}
+			}
+			e.preds[pkg+"."+p.Name] = p
+		}
 	}
 	// every contract must name an existing function (or a foreign one / interface method)
 	for key, c := range e.contracts {
